@@ -31,3 +31,19 @@ Definition calculate_pre_fee_amount (bps maxfee post : Z) : res Z :=
 Definition pre_fee_deposit_amount (bps maxfee post : Z) : res Z :=
   match calculate_pre_fee_amount bps maxfee post with
   | Ok v => Ok v | Err _ => Err EPanic end.
+
+(* A mint with a PENDING fee change holds two schedules (TransferFeeConfig::{older,newer}_transfer_fee); the token program
+   charges, and marginfi must gross up with, the one in force in the CURRENT epoch:
+     get_epoch_fee(epoch) = if epoch >= newer.epoch { newer } else { older } *)
+Record fee_schedule := mkFS { fs_old_bps : Z; fs_old_max : Z; fs_new_bps : Z; fs_new_max : Z; fs_new_epoch : Z }.
+
+Definition get_epoch_fee (s : fee_schedule) (epoch : Z) : Z * Z :=
+  if fs_new_epoch s <=? epoch then (fs_new_bps s, fs_new_max s) else (fs_old_bps s, fs_old_max s).
+
+(* calculate_pre_fee_spl_deposit_amount(mint, post, epoch) *)
+Definition pre_fee_deposit_amount_at (s : fee_schedule) (epoch post : Z) : res Z :=
+  pre_fee_deposit_amount (fst (get_epoch_fee s epoch)) (snd (get_epoch_fee s epoch)) post.
+
+(* TransferFeeConfig::calculate_epoch_fee: what the token program withholds from a transfer in `epoch` *)
+Definition calculate_epoch_fee (s : fee_schedule) (epoch pre : Z) : res Z :=
+  calculate_fee (fst (get_epoch_fee s epoch)) (snd (get_epoch_fee s epoch)) pre.
